@@ -42,6 +42,13 @@ def handle (line : String) : String :=
   else
   -- `at alg= st=<state words, LE> buf=<buffered tail> len=<total byte count> ops= src=`:
   -- a history that starts from a digest built by the hook VerifNewAt
+  -- `acc alg=`: Size() / BlockSize() / package constants / registered with package crypto
+  if o.cmd == "acc" then
+    match o.str "alg" with
+    | "md4" => "size=16 block=64 consts=16,64 avail=true"
+    | "rmd160" => "size=20 block=64 consts=20,64 avail=true"
+    | _ => "bad-op"
+  else
   if o.cmd == "at" then
     match o.get? "ops", o.hex? "src", o.hex? "st", o.hex? "buf", o.nat? "len" with
     | some opsS, some src, some st, some buf, some len =>
